@@ -127,6 +127,13 @@ class World:
 
     value_by_eid = False
 
+    @staticmethod
+    def pick(t, event):
+        """a tuple-valued option is indexed by the instance number of the handler's own event"""
+        if isinstance(t, (tuple, list)):
+            return t[getattr(event, 'ginst', 0) % len(t)]
+        return t
+
     def val(self, v, eid):
         """results of different event instances are made distinguishable (mix-ups between in-flight calls)"""
         if self.value_by_eid and isinstance(v, int) and eid is not None:
@@ -197,7 +204,7 @@ class World:
                         w.log.append(('suspend', hid, eid, ev.eid, 'call'))
                         kw = {}
                         if 'timeout' in opts:
-                            kw['timeout'] = opts['timeout']
+                            kw['timeout'] = w.pick(opts['timeout'], event)
                         try:
                             x = yield self.call(ev, **kw)
                             w.log.append(('resumed', hid, eid, ev.eid, snap(x), bool(getattr(x, 'errors', None))))
@@ -210,7 +217,7 @@ class World:
                         w.log.append(('suspend', hid, eid, ev.eid, op))
                         kw = {}
                         if 'timeout' in opts:
-                            kw['timeout'] = opts['timeout']
+                            kw['timeout'] = w.pick(opts['timeout'], event)
                         try:
                             x = yield self.wait(st[1] if op == 'waitn' else ev, **kw)
                             w.log.append(('resumed', hid, eid, ev.eid, snap(x), bool(getattr(x, 'errors', None))))
@@ -221,7 +228,7 @@ class World:
                         w.log.append(('suspend', hid, eid, -1, op))
                         kw = {}
                         if 'timeout' in opts:
-                            kw['timeout'] = opts['timeout']
+                            kw['timeout'] = w.pick(opts['timeout'], event)
                         try:
                             x = yield self.wait(st[1], **kw)
                             w.log.append(('resumed', hid, eid, -1, snap(x), bool(getattr(x, 'errors', None))))
